@@ -32,6 +32,14 @@ class _Break(Exception):
     pass
 
 
+class Raised(Exception):
+    """the interpreted code raised: only the class name of the exception is kept"""
+
+    def __init__(self, name):
+        Exception.__init__(self, name)
+        self.name = name
+
+
 class _Continue(Exception):
     pass
 
@@ -111,6 +119,10 @@ def ev(node, env):
                     ok = left in right
                 elif t is ast.NotIn:
                     ok = left not in right
+                elif t is ast.Is:
+                    ok = left is right
+                elif t is ast.IsNot:
+                    ok = left is not right
                 else:
                     raise Unsupported("comparison")
             except TypeError as e:
@@ -128,6 +140,15 @@ def ev(node, env):
             hi = ev(node.slice.upper, env) if node.slice.upper else None
             return v[lo:hi]
         return v[ev(node.slice, env)]
+    if isinstance(node, (ast.ListComp, ast.GeneratorExp)) and len(node.generators) == 1 and not node.generators[0].is_async:
+        g = node.generators[0]
+        out = []
+        sub = dict(env)
+        for x in ev(g.iter, env):
+            _assign(g.target, x, sub)
+            if all(ev(c, sub) for c in g.ifs):
+                out.append(ev(node.elt, sub))
+        return out
     if isinstance(node, ast.Attribute):
         obj = ev(node.value, env)
         if isinstance(obj, Abstract) and hasattr(obj, node.attr):
@@ -147,6 +168,14 @@ def ev(node, env):
                 fn = range
             if fn is None and node.func.id in ("len", "int", "abs", "min", "max"):
                 fn = {"len": len, "int": int, "abs": abs, "min": min, "max": max}[node.func.id]
+            if fn is None and node.func.id == "next":
+                def fn(it, *default):
+                    it = list(it)
+                    if it:
+                        return it[0]
+                    if default:
+                        return default[0]
+                    raise Raised("StopIteration")
             if callable(fn):
                 return fn(*[ev(a, env) for a in node.args], **kw)
         raise Unsupported("call %s" % ast.unparse(node.func))
@@ -215,6 +244,9 @@ def _block(stmts, env, fuel):
                 _block(s.orelse, env, fuel)
         elif isinstance(s, ast.Return):
             raise _Return(ev(s.value, env) if s.value is not None else None)
+        elif isinstance(s, ast.Raise):
+            e = s.exc.func if isinstance(s.exc, ast.Call) else s.exc
+            raise Raised(e.id if isinstance(e, ast.Name) else e.attr if isinstance(e, ast.Attribute) else "?")
         elif isinstance(s, ast.Break):
             raise _Break()
         elif isinstance(s, ast.Continue):
